@@ -930,3 +930,56 @@ Lemma router_consumes : forall script ps s st, Forall wf_cpx ps -> concat s = co
 Proof.
   intros script ps s st Hwf Hc. split; [now apply sys_run_consumes|now apply sys_run_consumes_all].
 Qed.
+
+(* ================================================================ makeTransaction with other traffic in between *)
+Lemma c_pumps_snoc : forall n c, c_pumps (S n) c = c_pump (c_pumps n c).
+Proof. induction n as [|n IH]; intros c; [reflexivity|]. cbn [c_pumps] in *. now rewrite <- IH. Qed.
+
+Lemma c_pumps_others : forall f others s st b, Forall wf_cpx others -> Forall (fun o => c_fn o <> f) others ->
+  concat s = concat (map frame others) ++ b ->
+  exists s1 st1, c_pumps (length others) (mk_cs s st true) = mk_cs s1 st1 true /\ st1 f = st f /\ concat s1 = b.
+Proof.
+  intros f. induction others as [|o others IH]; intros s st b Hwf Hne Hc; cbn [length c_pumps map concat app] in *.
+  - exists s, st. auto.
+  - inversion Hwf as [|? ? Ho Hos]; subst. inversion Hne as [|? ? Hno Hnos]; subst. rewrite <- app_assoc in Hc.
+    unfold c_pump at 1. cbn [cs_open cs_in cs_rt].
+    destruct (read_packet_frame o _ s Ho Hc) as (s1 & H1 & H2). rewrite H1.
+    destruct (IH s1 (fst (r_step st (Arrive (Ok o)))) b Hos Hnos H2) as (s2 & st2 & E & Ef & Es).
+    exists s2, st2. repeat split; auto. rewrite Ef.
+    destruct (r_step_irrelevant f st (Arrive (Ok o))) as [Hi _]; [cbn [rel]; lia|exact Hi].
+Qed.
+
+Lemma c_pumps_then_reply : forall f others r b s st0,
+  Forall wf_cpx others -> Forall (fun o => c_fn o <> f) others -> wf_cpx r -> c_fn r = f ->
+  concat s = concat (map frame others) ++ frame r ++ b -> st0 f = Some [] ->
+  exists s2 st2, c_pumps (S (length others)) (mk_cs s st0 true) = mk_cs s2 st2 true /\
+    st2 f = Some [r] /\ concat s2 = b.
+Proof.
+  intros f others r b s st0 Hos Hne Hr Hf Hc H0. rewrite c_pumps_snoc.
+  destruct (c_pumps_others f others s st0 (frame r ++ b) Hos Hne Hc) as (s1 & st1 & E1 & Ef1 & Es1).
+  rewrite E1. unfold c_pump. cbn [cs_open cs_in cs_rt].
+  destruct (read_packet_frame r b s1 Hr Es1) as (s2 & H1 & H2). rewrite H1.
+  cbn [r_step]. rewrite Hf, Ef1, H0. cbn [fst app].
+  eexists _, _. split; [reflexivity|]. split; [|assumption]. unfold upd. now rewrite Z.eqb_refl.
+Qed.
+
+(* the reply may come after any number of packets of OTHER functions: they are routed (or dropped) as usual and
+   the call returns the reply *)
+Lemma c_transact_reply_after_others : forall takes p others r b s st,
+  wf_cpx p -> Forall wf_cpx others -> Forall (fun o => c_fn o <> c_fn p) others -> wf_cpx r -> c_fn r = c_fn p ->
+  concat s = concat (map frame others) ++ frame r ++ b ->
+  (st (c_fn p) = None \/ st (c_fn p) = Some []) ->
+  exists c', c_step takes (mk_cs s st true) (CTransact p (S (length others))) = (c', [OTrans (Ok (frame p)) (Some r)]) /\
+    concat (cs_in c') = b /\ cs_rt c' (c_fn p) = Some [] /\ cs_open c' = true.
+Proof.
+  intros takes p others r b s st Hp Hos Hne Hr Hf Hc Hq.
+  cbn [c_step cs_open]. rewrite (tx_packet_wf takes p Hp). cbn [cs_rt cs_in].
+  destruct Hq as [E|E]; rewrite E.
+  - destruct (c_pumps_then_reply (c_fn p) others r b s (upd st (c_fn p) []) Hos Hne Hr Hf Hc) as (s2 & st2 & E2 & Eq2 & Es2).
+    { unfold upd. now rewrite Z.eqb_refl. }
+    rewrite E2. cbn [cs_rt cs_in cs_open]. rewrite Eq2.
+    eexists. split; [reflexivity|]. cbn [cs_in cs_rt cs_open]. repeat split; auto. unfold upd. now rewrite Z.eqb_refl.
+  - destruct (c_pumps_then_reply (c_fn p) others r b s st Hos Hne Hr Hf Hc E) as (s2 & st2 & E2 & Eq2 & Es2).
+    rewrite E2. cbn [cs_rt cs_in cs_open]. rewrite Eq2.
+    eexists. split; [reflexivity|]. cbn [cs_in cs_rt cs_open]. repeat split; auto. unfold upd. now rewrite Z.eqb_refl.
+Qed.
